@@ -156,3 +156,21 @@ Print Assumptions C16_sessions_survive.
 Theorem C16_sessions_nonvacuous : sessions dirs2 [] evs2 = true.
 Proof. exact sessions_nonvacuous. Qed.
 Print Assumptions C16_sessions_nonvacuous.
+
+(* connection reset and descriptor re-use (cmds/recv.c:631 EPOLLERR|EPOLLHUP -> recv_trace_end; accept() returns
+   the lowest free descriptor): a client announces d1, sends body1 (plus possibly the beginning of more) and is
+   RESET; the hang-up removes its entry from the client table, so the next connection - accepted on the SAME
+   descriptor number k - records into its own directory d2.  For every segmentation: d2 is the local recording
+   of the second client, d1 holds exactly what the first one had completely sent, the client table is as before. *)
+Theorem C16_reset_then_descriptor_reuse : forall k d1 body1 junk d2 body2 t1 t2 s,
+  forallb wf_msg (MDir d1 :: body1) = true -> forallb wf_msg (MDir d2 :: body2 ++ [MEnd]) = true ->
+  forallb is_body body1 = true -> forallb is_body body2 = true ->
+  fs s d1 = None -> fs s d2 = None -> d1 <> d2 -> d1 <> old_of d2 ->
+  good t1 = true -> bytes_of t1 = concat (map enc (MDir d1 :: body1)) ++ junk ->
+  good t2 = true -> bytes_of t2 = concat (map enc (MDir d2 :: body2 ++ [MEnd])) ->
+  exists s' tm',
+    serve_w (map WIn (repeat k (S (length body1))) ++ [WHup k; WNew k t2] ++ map WIn (repeat k (length body2 + 2)))
+            (tm_set k t1 (fun _ => [])) s = Some (s', tm') /\
+    fs s' d1 = Some (local_dir body1) /\ fs s' d2 = Some (local_dir body2) /\ clients s' = clients s.
+Proof. exact reset_then_reuse. Qed.
+Print Assumptions C16_reset_then_descriptor_reuse.
